@@ -22,6 +22,7 @@ impl AtomicU64 {
 impl Clone for AtomicU64 {
 //@fn atomicu64_clone
 //@| fn: src/types.rs | impl Clone for AtomicU64 | fn clone
+//@| attr: #[verifier::external_body]
 //@end
 }
 //@item src/types.rs | enum AesVendorVersion
